@@ -2,6 +2,7 @@
 
 import random
 from copy import copy
+from numbers import Integral
 
 from cnfgen.formula.cnf import CNF
 
@@ -77,7 +78,8 @@ def Shuffle(F,
         if len(polarity_flips) != N:
             raise ValueError(perr)
         for i in range(N):
-            if abs(polarity_flips[i]) != 1:
+            if not isinstance(polarity_flips[i], Integral) or \
+               abs(polarity_flips[i]) != 1:
                 raise ValueError(perr)
 
     # variables permutation
@@ -91,7 +93,7 @@ def Shuffle(F,
             raise ValueError(verr)
         tmp = sorted(variables_permutation)
         for i in range(N):
-            if i+1 != tmp[i]:
+            if not isinstance(tmp[i], Integral) or i+1 != tmp[i]:
                 raise ValueError(verr)
 
     #
